@@ -693,7 +693,8 @@ def _scenario(ctx, world, vals, funcs, tables, lines, pending, only=None):
                         if v != "attr":
                             ctx.violation(f"{world.group}:wrong-error", f"{world.name}: reading {m} with "
                                           f"{sorted(sup_names) or 'nothing'} supplied raises {msg} instead of AttributeError", rp)
-                        if dt > SLOW:
+                        if dt > SLOW and min(r2[3] for r2 in _run_real(world, sup_names, order, vals, funcs[world.cls])[2]
+                                             if r2[0] == m) > SLOW:      # confirmed on a second fresh object (machine load)
                             ctx.violation(f"{world.group}:slow-failure", f"{world.name}: failing read of {m} took {dt:.2f}s", rp)
                         if m in expect and v == "attr":
                             ctx.violation(f"{world.group}:underivable", f"{world.name}: {m} follows from "
